@@ -2,11 +2,13 @@
 
 use crate::mon::Ctx;
 
+pub mod c19;
 pub mod selftest;
 
 pub fn run(id: &str, ctx: &mut Ctx) -> bool {
     match id {
         "SELF" => selftest::run(ctx),
+        "C19" => c19::run(ctx),
         _ => return false,
     }
     true
